@@ -315,6 +315,13 @@ func SetAttrString(self Object, key string, value Object) (Object, error) {
 		return res, err
 	}
 
+	// The dictionary of a built-in type is shared by every context in
+	// the process so it can't be changed from python, only classes
+	// made by a class statement can
+	if t, ok := self.(*Type); ok && isBuiltinType(t) {
+		return nil, ExceptionNewf(TypeError, "can't set attributes of built-in/extension type '%s'", t.Name)
+	}
+
 	// Otherwise set the attribute in the instance dictionary if
 	// possible
 	if I, ok := self.(IGetDict); ok {
@@ -328,6 +335,16 @@ func SetAttrString(self Object, key string, value Object) (Object, error) {
 
 	// If not blow up
 	return nil, ExceptionNewf(AttributeError, "'%s' object has no attribute '%s'", self.Type().Name, key)
+}
+
+// isBuiltinType reports whether t is a type made in Go rather than a
+// class made by a class statement or an instance of such a class
+// (which are *Type values too)
+func isBuiltinType(t *Type) bool {
+	if t.Flags&TPFLAGS_HEAPTYPE != 0 {
+		return false
+	}
+	return t.ObjectType == nil || t.ObjectType.Flags&TPFLAGS_HEAPTYPE == 0
 }
 
 // SetAttr
@@ -358,6 +375,11 @@ func DeleteAttrString(self Object, key string) error {
 		return err
 	} else if _, ok, err := TypeCall1(self, "__delattr__", String(key)); ok {
 		return err
+	}
+
+	// As for SetAttrString, built-in types are shared by every context
+	if t, ok := self.(*Type); ok && isBuiltinType(t) {
+		return ExceptionNewf(TypeError, "can't set attributes of built-in/extension type '%s'", t.Name)
 	}
 
 	// Otherwise delete the attribute from the instance dictionary
